@@ -64,6 +64,8 @@ pub fn sstr() -> Vec<String> {
         "\x08\x0c\r\t", "\x1f", "a\"b\\c",
         // strings that spell JSON documents, DEL next to a character that needs an escape, a lone backslash path
         "[]", "{\"a\":1}", "null", "\x7f\n", "C:\\temp",
+        // brackets and braces around white space inside a string (a renderer post-pass must not touch them)
+        "- [ ] x", "{\n }",
     ]
     .iter()
     .map(|s| s.to_string())
